@@ -10,12 +10,13 @@ git -C $WT reset -q --hard; git -C $WT clean -fdq tests/ ; git -C $WT checkout -
 cd $WT
 name=demo_$(basename $D | tr '-' '_')
 cp $D/demo.rs tests/$name.rs
+FEAT=""; if grep -q "verif" $D/demo.rs; then FEAT="--features verif"; fi
 # without the change: demo must pass
-timeout 3000 cargo nextest run --offline --test $name > $D/confirm_demo_without.log 2>&1; demo_without=$?
+timeout 3000 cargo nextest run --offline $FEAT --test $name > $D/confirm_demo_without.log 2>&1; demo_without=$?
 git apply $D/patch.diff || { echo '{"applies": false}' > $D/confirm.json; exit 1; }
 timeout 1200 cargo check --offline > /dev/null 2>&1; chk1=$?
 timeout 1200 cargo check --offline --features verif > /dev/null 2>&1; chk2=$?
-timeout 3600 cargo nextest run --workspace --no-fail-fast --test-threads 8 --offline > $D/confirm_suite_with.log 2>&1
+timeout 3600 cargo nextest run --workspace --no-fail-fast --test-threads 8 --offline $FEAT > $D/confirm_suite_with.log 2>&1
 summary=$(grep -E "^\s+Summary" $D/confirm_suite_with.log | tail -1)
 failed=$(grep -E "^\s+FAIL " $D/confirm_suite_with.log | sed 's/.*\] *//' | sort -u | tr '\n' ';')
 git -C $WT reset -q --hard; git -C $WT clean -fdq tests/
